@@ -91,7 +91,7 @@ TOLERANCES = {
               'resolution(dtype))*(1+max|x|+s*max|p2|) (the library shrinks '
               'some thresholds by 10*resolution on purpose)',
     'sup_oracle': '|f*(y) - sup| <= 1e-6*(1+|f*(y)|), only when Nelder-Mead '
-                  'converged (restarts until no progress)',
+                  'converged (restarts until no progress) and |f*(y)| < 1e6',
 }
 ASSUMPTIONS = [
     'real floating-point spaces only (Functional assumes a real field)',
@@ -646,6 +646,9 @@ def _check_node(B, pts, top, fd, ctx, probe=True):
             if yg is None or not np.all(np.isfinite(yg)):
                 continue
             ye, yf = X(yg)
+            if not _moderate(yf, f32):
+                note('subgradient_overflow')
+                continue
             if f32 and float(np.max(np.abs(yf - yg))) > 0:
                 # the rounded sub-gradient is no sub-gradient any more;
                 # the gap is second order only for smooth conjugates
@@ -662,6 +665,9 @@ def _check_node(B, pts, top, fd, ctx, probe=True):
             if xg is None or not np.all(np.isfinite(xg)):
                 continue
             xe, xf = X(xg)
+            if not _moderate(xf, f32):
+                note('subgradient_overflow')
+                continue
             if f32 and float(np.max(np.abs(xf - xg))) > 0:
                 note('f32_subgradient_rounded')
                 continue
@@ -690,7 +696,7 @@ def _check_node(B, pts, top, fd, ctx, probe=True):
                     note('libgrad_failed')
                     break
                 yf = flat.flat(ye, space)
-                if not np.all(np.isfinite(yf)):
+                if not _moderate(yf, f32):
                     continue
                 hit('fy-eq-libgrad')
                 equality(xe, xf, ye, yf, 'fy-eq-libgrad', ccenter,
@@ -754,7 +760,7 @@ def _check_node(B, pts, top, fd, ctx, probe=True):
                 np.isfinite(_val(f, X(start)[0], 'f(x)', sig)):
             sup, ok = _sup_oracle(f, space, ye, start)
             lv = _val(fc, ye, 'f*(y)', sig)
-            if ok and np.isfinite(lv):
+            if ok and np.isfinite(lv) and abs(lv) < 1e6:
                 hit('sup')
                 finite_hits[0] += 1
                 if abs(lv - sup) > 1e-6 * (1 + abs(lv)):
@@ -839,6 +845,14 @@ def _huber_prox_known(B):
     Moreau clause reports that under its own signature."""
     return any('huber' in b.region and b.region['huber'].startswith('vec')
                for b in B.nodes())
+
+
+def _moderate(v, f32):
+    """Finite and far from the overflow threshold of the space dtype (a
+    point that squared still fits)."""
+    lim = 1e-3 * np.sqrt(np.finfo(np.float32 if f32 else np.float64).max)
+    return bool(np.all(np.isfinite(v))) and (
+        v.size == 0 or float(np.max(np.abs(v))) < lim)
 
 
 def _ref_scale(ref):
